@@ -20,7 +20,7 @@ def server_identity():
 
 class Sandwich:
     def __init__(self, loop, inner_factory, backend="pyopenssl", log=None, client_identity=None,
-                 peername=("192.0.2.7", 40001), request_client_cert=True, server_ident=None, tls_max=None):
+                 peername=("192.0.2.7", 40001), request_client_cert=True, server_ident=None, tls_max=None, capacity=None, captured=None):
         self.loop = loop
         self.backend = backend
         self.log = log if log is not None else []
@@ -39,7 +39,19 @@ class Sandwich:
             self.inner = p
             return p
 
-        if backend == "pyopenssl":
+        if captured is not None:
+            # the production wiring exactly as start_server() handed it to loop.create_server()
+            kw = captured.get("kwargs", {})
+            if kw.get("ssl") is not None:
+                self.backend = backend = "stdlib"
+                app = captured["factory"]()
+                self.inner = app
+                extra = {k: kw[k] for k in ("ssl_handshake_timeout", "ssl_shutdown_timeout") if kw.get(k) is not None}
+                self.server_proto = asyncio.sslproto.SSLProtocol(loop, app, kw["ssl"], None, server_side=True, **extra)
+            else:
+                self.backend = backend = "pyopenssl"
+                self.server_proto = captured["factory"]()
+        elif backend == "pyopenssl":
             from nauyaca.security.pyopenssl_tls import create_pyopenssl_server_context
             from nauyaca.server.tls_protocol import TLSServerProtocol
 
@@ -64,6 +76,8 @@ class Sandwich:
             cctx.load_cert_chain(client_identity.certfile, client_identity.keyfile)
         self.client = cctx.wrap_bio(self.cin, self.cout, server_side=False, server_hostname="localhost")
         self.tcp = FakeTCP(loop, self.server_proto, peername=peername, log=self.log, sink=self.cin.write)
+        if capacity is not None:
+            self.tcp.capacity = capacity
         self.cipher_cuts = None  # callable(n)->cut list, applied to every client flush
         self.sent_cipher = 0
         loop.do(self.tcp.attach)
@@ -149,6 +163,22 @@ class Sandwich:
         self.flush()
 
     def drain(self):
+        """Read everything currently decryptable; with a bounded pipe, keep making room until dry."""
+        while True:
+            before = self.cin.pending
+            self._drain_once()
+            if self.tcp.capacity is None:
+                return
+            freed = self.tcp.inflight - self.cin.pending
+            if freed > 0:
+                self.loop.do(self.tcp.consumed, freed)
+            if self.cin.pending == 0 and not self.tcp.pending:
+                self._drain_once()
+                return
+            if self.cin.pending == before and freed <= 0:
+                return
+
+    def _drain_once(self):
         while True:
             try:
                 d = self.client.read(65536)
@@ -165,7 +195,18 @@ class Sandwich:
                 return
             self.client_plain += d
 
+    def read_all_now(self):
+        """A client that reads as fast as it can, without the clock moving."""
+        for _ in range(100000):
+            n0 = len(self.client_plain)
+            self.loop.settle()
+            self.drain()
+            if len(self.client_plain) == n0 and not (self.tcp.capacity is not None and self.tcp.pending and self.tcp.inflight < self.tcp.capacity):
+                break
+
     def finish(self, peer_closes_after_server=True, horizon=100000.0):
+        if self.tcp.capacity is not None:
+            self.read_all_now()
         end = self.loop.run_until(horizon)
         self.drain()
         if peer_closes_after_server and self.client_eof and not self.tcp.lost:
